@@ -147,6 +147,68 @@ def run(ctx):
             ok = ok and len(r2b) == 1 and r2b[0].args[0].s == 'dst_rank' and r2b[0].args[3].s == 'src_rank'
         rd.expect(ok, 'count:%s' % fn, cnt[0].loc if cnt else g.where(), '%s: count_bits / deps_mask must be updated only when the destination bit was not yet set, together with setting it' % fn,
                   note='%s: bit unset -> set bit, deps_mask |=, count_bits++' % fn)
+    check_mask_domains(ctx)
+
+
+# ------------------------------------------------------------------------------------------------
+# R13.e: two index domains for dependency bit masks
+DT_FIELDS = {'outgoing_mask', 'incoming_mask', 'output_mask', 'flow_datatype_mask'}
+DEP_FIELDS = {'deps_mask'}
+SUCC_CALLS = ('iterate_successors', 'release_deps')
+MASK_UNITS = ['parsec/remote_dep.c', 'parsec/remote_dep_mpi.c', 'parsec/parsec.c']
+
+
+def _shift_bits(e):
+    """[(index field, base expression)] for every `1 << X->dep_index` / `1 << X->dep_datatype_index` inside e."""
+    out = []
+    for x in e.walk():
+        if x.k == 'bin' and x.op == '<<' and x.ch[1].k == 'mem' and x.ch[1].n in ('dep_index', 'dep_datatype_index'):
+            out.append((x.ch[1].n, x.ch[1].ch[0].s))
+    return out
+
+
+def check_mask_domains(ctx):
+    """Remote activations carry masks indexed by dep_datatype_index (one bit per output datatype: msg.output_mask,
+    outgoing_mask, incoming_mask), successors are selected with masks indexed by dep_index (deps_mask, the action mask
+    of iterate_successors / release_deps).  A bit built from one index must never be stored into a mask of the other
+    domain, and a receiver-side conversion tests the datatype bit and sets the dep bit of the *same* dependency:
+    otherwise the tree rebuilt by a forwarding rank differs from the one the root used (lost / duplicated activation)."""
+    re_ = ctx.rule('R13.e', 'dependency masks: dep_index bits only in successor-selection masks, dep_datatype_index bits only in message masks; conversions pair the two indices of one dependency', floor=12)
+    for un in MASK_UNITS:
+        u = ctx.extract(un)
+        for fname, f in u.funcs().items():
+            if not f.file.endswith(un.split('/')[-1]):
+                continue
+            sts = [s_ for s_ in f.stores() if s_.op in ('|=', '&=', '=') and s_.rhs is not None and _shift_bits(s_.rhs)]
+            if not sts:
+                continue
+            ctx.functions_analysed.add(fname)
+            # locals that select successors: mentioned in the action-mask argument of iterate_successors / release_deps
+            dep_locals = set()
+            for c in f.events():
+                if c.kind == 'call' and c.fn is None and c.callee is not None and c.callee.k == 'mem' and c.callee.n in SUCC_CALLS and len(c.args) >= 3:
+                    dep_locals |= {x.s for x in c.args[2].walk() if x.k == 'ref' and x.dk in ('var', 'parm')}
+            for s_ in sts:
+                for field, base in _shift_bits(s_.rhs):
+                    kind = 'DEP' if field == 'dep_index' else 'DT'
+                    if s_.lhs.k == 'mem':
+                        dom = 'DT' if s_.lhs.n in DT_FIELDS else 'DEP' if s_.lhs.n in DEP_FIELDS else None
+                    elif s_.lhs.k == 'ref':
+                        dom = 'DEP' if s_.lhs.s in dep_locals else None
+                    else:
+                        dom = None
+                    if dom is None:
+                        continue
+                    re_.expect(kind == dom, 'domain:%s:%s:%s' % (fname, s_.lhs.s, field), s_.loc,
+                               '%s: a bit indexed by %s is stored into %s, a mask indexed by %s' % (fname, field, s_.lhs.s, 'dep_index (successor selection)' if dom == 'DEP' else 'dep_datatype_index (message / datatype)'),
+                               note='%s: %s %s 1 << %s->%s' % (fname, s_.lhs.s, s_.op, base, field))
+                    if dom == 'DEP' and s_.lhs.k == 'ref':
+                        # conversion site: the guard tests the datatype index of the same dependency
+                        def same_dep(a, t, base=base):
+                            return t is True and any(x.k == 'mem' and x.n == 'dep_datatype_index' and x.ch[0].s == base for x in a.walk())
+                        re_.expect(f.guarded_by(s_.point, same_dep), 'convert:%s:%s' % (fname, s_.lhs.s), s_.loc,
+                                   '%s: the dep_index bit of %s must be set under a test of the dep_datatype_index of the same dependency' % (fname, base),
+                                   note='%s: %s set under a test of %s->dep_datatype_index' % (fname, s_.lhs.s, base))
 
 
 def _reaches_header_avoiding_all(f, start_block, hdrs, mark_blocks):
